@@ -240,7 +240,8 @@ def codec_block(f: int, first: int, count: int) -> int:
         p0 = ir.ii(first)
     else:
         p0 = ir.Period.from_year_segment(ir.Frequency(f), first // f, first % f + 1)
-    assert p0.serial == first
+    if p0.serial != first:
+        return -1          # the constructor itself is off: reported as a digest mismatch of this block
     h = 0
     for k in range(count):
         h = codec_digest(h, p0 + k, ir, ns)
